@@ -45,3 +45,14 @@ def nodal_imbalance(o, disp, tol=1e-6):
             if abs(s) > tol * scale:
                 bad.append([n, t, s])
     return bad[:10]
+
+
+def add_split(specs, every=3):
+    """ask for split optimisation on every n-th spec without coarse / periodic assets
+    (their combination with short intervals is explored under C14)"""
+    for i, sp in enumerate(specs):
+        if i % every == 0 and sp['grid']['freq'] in ('h', '30min') and 'split' not in sp['opts']:
+            if any(a.get('freq') or a.get('periodicity') for a in sp['assets']):
+                continue
+            sp['opts']['split'] = {'h': '3h', '30min': '2h'}[sp['grid']['freq']]
+    return specs
